@@ -25,7 +25,7 @@ CHECKS = {
   note="Trusted: regex-syntax translation and regex-automata determinisation as the meaning of patterns. Unicode word boundaries are decided over ASCII lines (the DFA quits on non-ASCII). Under CRLF the matcher is documented never to match \\r, so 'as written' is judged on lines without \\r and \\n.",
   tech="explicit-state model checking: BFS over product automata (language inclusion / equivalence over all lines), model bound to the code by replaying paths on the real matcher"),
  "C12": dict(cat="exploration", ref="DESIGN.md §4 C12, Appendix A.4",
-  text="Bounded exhaustive enumeration: every glob over a 13-token grammar up to length 3 x all 16 option sets x every path over {a,b,.,/,-,A} up to length 5 (quick) / 6 (thorough) plus non-UTF-8 variants; single globs against an independent reference matcher written from the documented syntax, glob sets (singletons, all-glob sets, mixed-option set, all pairs/triples over a strategy-covering pool) against their member globs.",
+  text="Bounded exhaustive enumeration: every glob over a 17-token grammar (incl. alternates with recursive wildcards in first and later branches) up to length 3 x all 16 option sets x every path over {a,b,.,/,-,A} up to length 5 (quick) / 6 (thorough) plus non-UTF-8 variants; single globs against an independent reference matcher written from the documented syntax, glob sets (singletons, all-glob sets, mixed-option set, all pairs/triples over a strategy-covering pool) against their member globs.",
   note="Trusted: regex-automata's matching of each member glob's regex; shapes beyond the length bounds are not explored.",
   tech="bounded exhaustive enumeration (all globs x options x paths up to a size bound) against a reference model"),
  "C13": dict(cat="exploration", ref="DESIGN.md §4 C13, Appendix A.5",
